@@ -4,6 +4,7 @@ import (
 	"errors"
 	"fmt"
 	"sort"
+	"strings"
 
 	"github.com/NethermindEth/juno/core"
 	"github.com/NethermindEth/juno/db"
@@ -76,6 +77,46 @@ func (rc *realCase) readErrClass(ref *startRes, images []crashImage, refAfter ma
 		}
 		trials = append(trials, tr)
 	}
+	// A2. the same enumeration for ONE restart after a crash and ONE restart after a cancellation (both
+	// points tape-chosen), over the stages of the migration that the restart has to resume
+	first := func(tr readTrial, st string) readTrial {
+		tr.tgt = readTarget{stage: st}
+		if n := ref.readNames[st]; n == "iter" || n == "biter" {
+			tr.tgt.mode = t.Draw("rderr.a2.mode", nReadModes)
+			if tr.tgt.mode != rfCall {
+				tr.tgt.nth = t.Draw("rderr.a2.nth", 3)
+			}
+		}
+		return tr
+	}
+	if len(images) > 0 {
+		k := t.Draw("rderr.a2.k", len(images))
+		pfx := "runner"
+		for i := range rc.fF.target().Difference(readMeta(c, images[k].img).CurrentVersion).Iter() {
+			pfx = migStagePrefix(int(i))
+			break
+		}
+		for _, st := range stages {
+			if strings.HasPrefix(st, pfx) {
+				trials = append(trials, first(readTrial{sit: sitAfterCrash, k: k}, st))
+			}
+		}
+	}
+	{
+		j := 1 + t.Draw("rderr.a2.j", rc.nOps)
+		pfx := "runner"
+		for _, st := range ref.stages[j-1:] { // the migration executing at (or first entered after) operation j of the uninterrupted schedule
+			if st != "runner" {
+				pfx = strings.SplitN(st, ".", 2)[0]
+				break
+			}
+		}
+		for _, st := range stages {
+			if strings.HasPrefix(st, pfx) {
+				trials = append(trials, first(readTrial{sit: sitAfterCancel, j: j}, st))
+			}
+		}
+	}
 	// B. tape-chosen start, stage, ordinal and manifestation
 	nB := 3 + t.Draw("rderr.n", 6)
 	if c.Tier == "thorough" {
@@ -109,6 +150,21 @@ func (rc *realCase) readErrClass(ref *startRes, images []crashImage, refAfter ma
 		}
 	}
 	c.Nontrivial = fired >= 3 && nTx > 0
+}
+
+// migStagePrefix: the prefix stageOf gives the stages of a migration.
+func migStagePrefix(idx int) string {
+	switch idx {
+	case idxBlockTx:
+		return "blocktx"
+	case idxPrune:
+		return "prune"
+	case idxNewState:
+		return "headstate"
+	case idxSDL:
+		return "sdl"
+	}
+	return fmt.Sprintf("toy%d", idx)
 }
 
 // readTrial runs one faulty start followed by a healthy one; it reports whether the fault fired.
